@@ -436,6 +436,41 @@ def fault_after_the_change(ctx: Ctx, kind: str, doc_edges: set) -> None:
         del app.orchestrator._register_new_invocations
 
 
+def long_lifecycle(ctx: Ctx, kind: str, doc_edges: set) -> None:
+    """a lifecycle with far more changes than usual: an invocation that concurrency control defers on EVERY poll while another one of its
+    task keeps running (a re-route storm: CONCURRENCY_CONTROLLED, REROUTED, again and again), then runs.  Every one of the changes has its
+    entry, the first (REGISTERED) included - however many there are."""
+    from pynenc.conf.config_task import ConcurrencyControlType as C
+    from pynenc.invocation.status import InvocationStatus as S
+
+    defer = DeferredThreads().install()
+    try:
+        app = make_app(kind, ctx.tmp, app_id=f"c10long{kind}")
+        rec = Recorder(app)
+        t = app.task(T.keyed, running_concurrency=C.TASK, reroute_on_concurrency_control=True)
+        a, b = t("a"), t("b")
+        rA, rB = rctx("rA"), rctx("rB")
+        got = list(app.orchestrator.get_invocations_to_run(1, rA))
+        app.orchestrator.set_invocation_status(got[0].invocation_id, S.RUNNING, rA)
+        polls = 520 if ctx.quick else 1100
+        for k in range(polls):
+            list(app.orchestrator.get_invocations_to_run(1, rB))       # the other one: deferred and re-routed
+            if k % 64 == 0:
+                defer.flush()
+        other = got[0].invocation_id
+        app.orchestrator.set_invocation_status(other, S.SUCCESS, rA)
+        for inv in list(app.orchestrator.get_invocations_to_run(1, rB)):
+            inv.run(rB)
+        defer.flush()
+        flush(app)
+        judge(ctx, kind, app, rec, doc_edges, "long-lifecycle", one_changer=False)
+        n = max((sum(1 for i, *_ in rec.log if i == inv_id) for inv_id in {i for i, *_ in rec.log}), default=0)
+        ctx.notes[f"long_lifecycle_changes_{kind}"] = n
+        _ = (a, b)
+    finally:
+        defer.uninstall()
+
+
 def forked_process_names_itself(ctx: Ctx) -> None:
     """each entry names the runner that made the change - also when the change is made by a process FORKED from one that has already
     recorded changes (a worker of a process runner, a pre-forking server): outside a runner the "runner" is the process itself"""
@@ -607,6 +642,7 @@ def run(ctx: Ctx) -> None:
         adjacent_transitions(ctx, kind, doc_edges)
         flush_waits_for_every_writer(ctx, kind)
         fault_after_the_change(ctx, kind, doc_edges)
+        long_lifecycle(ctx, kind, doc_edges)
         concurrent(ctx, kind, doc_edges)
     ctx.obligation("flushed history == logged transitions (multiset, own invocation, documented path by time of change) on Mem and SQLite",
                    not any(v["signature"].startswith("history-") for v in ctx.violations), "see violations")
